@@ -153,6 +153,10 @@ fn normalise<R: Ord + Clone>(o: &Outcome<R>, model_panics: &[String]) -> Outcome
     }
 }
 
+thread_local! {
+    pub static COSIM_NANOS: std::cell::Cell<u64> = const { std::cell::Cell::new(0) };
+}
+
 pub fn check_program<F: Family>(idx: usize, prog: &Program<F>, mode: &Mode) -> ProgReport {
     let mut rep = ProgReport {
         idx,
@@ -184,12 +188,15 @@ pub fn check_program<F: Family>(idx: usize, prog: &Program<F>, mode: &Mode) -> P
         ..Options::default()
     };
     let mut impl_outcomes: BTreeSet<Outcome<F::Res>> = BTreeSet::new();
+    let mut mc: MCache<F> = MCache::new(prog, false);
     let mut viols: Vec<Violation> = Vec::new();
     let mut validated = 0u64;
     let mut sample: Option<serde_json::Value> = None;
     let maxv = mode.max_violations_per_program;
     let r = explore_program::<F>(&arc, opts, mode.max_execs, |rec, _ex| {
-        let cr = cosim(prog, rec, false, mode.check_enabled);
+        let tc = std::time::Instant::now();
+        let cr = cosim(prog, &mut mc, rec, mode.check_enabled);
+        COSIM_NANOS.with(|c| c.set(c.get() + tc.elapsed().as_nanos() as u64));
         if cr.fail.is_none() {
             validated += 1;
         }
@@ -381,6 +388,10 @@ pub struct FamAgg {
     pub violations: Vec<Violation>,
     pub samples: Vec<serde_json::Value>,
     pub machinery_errors: Vec<String>,
+    /// (executions, program index) of the heaviest programs
+    pub heaviest: Vec<(u64, usize)>,
+    /// histogram of executions per program: <10, <100, <1k, <10k, <100k, >=100k
+    pub histo: [usize; 6],
 }
 
 /// Worker body: check programs idx ≡ shard (mod nshards), idx ≥ from; print B/E lines.
@@ -551,6 +562,16 @@ pub fn run_family(fam: &dyn FamilyDyn, set: &str, mode: &Mode, nshards: usize, d
                 agg.programs_nontrivial += 1;
             }
             agg.executions += r.executions;
+            agg.heaviest.push((r.executions, r.idx));
+            let b = match r.executions {
+                0..=9 => 0,
+                10..=99 => 1,
+                100..=999 => 2,
+                1000..=9999 => 3,
+                10000..=99999 => 4,
+                _ => 5,
+            };
+            agg.histo[b] += 1;
             agg.decisions += r.decisions;
             agg.max_depth = agg.max_depth.max(r.max_depth);
             agg.model_states += r.model_states;
@@ -571,6 +592,8 @@ pub fn run_family(fam: &dyn FamilyDyn, set: &str, mode: &Mode, nshards: usize, d
         }
     }
     agg.violations.sort_by_key(|v| (v.program_idx, v.alts.len()));
+    agg.heaviest.sort_by(|a, b| b.cmp(a));
+    agg.heaviest.truncate(5);
     agg
 }
 
@@ -586,6 +609,8 @@ impl FamAgg {
             "traces_validated_against_impl": self.traces_validated,
             "capped_programs": self.capped_programs, "skipped_deadline": self.skipped_deadline,
             "violations": self.violations.len(),
+            "executions_per_program_histogram(<10,<100,<1k,<10k,<100k,more)": self.histo,
+            "heaviest_programs(executions,index)": self.heaviest,
         })
     }
 }
